@@ -273,6 +273,28 @@ def _is_docstring(st: ast.stmt) -> bool:
     return isinstance(st, ast.Expr) and isinstance(st.value, ast.Constant) and isinstance(st.value.value, str)
 
 
+def _leading_walrus(e: ast.AST) -> Optional[ast.NamedExpr]:
+    """The assignment expression that is evaluated first and unconditionally in e, if any."""
+    while True:
+        if isinstance(e, ast.NamedExpr):
+            inner = _leading_walrus(e.value)
+            return inner or e
+        if isinstance(e, ast.Compare):
+            e = e.left
+        elif isinstance(e, ast.BoolOp):
+            e = e.values[0]
+        elif isinstance(e, ast.UnaryOp):
+            e = e.operand
+        elif isinstance(e, ast.Call) and isinstance(e.func, ast.Name) and e.args and not e.keywords:
+            e = e.args[0]
+        elif isinstance(e, ast.Attribute):
+            e = e.value
+        elif isinstance(e, ast.Subscript):
+            e = e.value
+        else:
+            return None
+
+
 class BlockCanon:
     """C2, C3, C4, C7 over statement lists.  `tail` tells what falling off the
     end of the block means: 'func' (return None), 'loop' (next iteration) or
@@ -293,6 +315,25 @@ class BlockCanon:
             last = i == len(stmts) - 1
             st = self.stmt(st, tail if last else None)
             stmts[i] = st
+            # ---- walrus in leading position of an `if` test / assignment / return  ->  plain assignment first (C5)
+            if enabled("C5") and isinstance(st, (ast.If, ast.Assign, ast.Return, ast.Expr)):
+                holder = "test" if isinstance(st, ast.If) else "value"
+                expr_ = getattr(st, holder, None)
+                w_ = _leading_walrus(expr_) if expr_ is not None else None
+                if w_ is not None and isinstance(w_.target, ast.Name):
+                    self.changed = True
+                    asg_ = _loc(ast.Assign(targets=[ast.Name(id=w_.target.id, ctx=ast.Store())], value=w_.value), st)
+                    name_ = w_.target.id
+
+                    class _Sub(ast.NodeTransformer):
+                        def visit_NamedExpr(self, node):
+                            if node is w_:
+                                return _loc(ast.Name(id=name_, ctx=ast.Load()), node)
+                            return self.generic_visit(node)
+
+                    setattr(st, holder, _Sub().visit(expr_))
+                    stmts[i : i + 1] = [asg_, st]  # type: ignore[list-item]
+                    continue
             # ---- C4 conditional expressions at statement level
             if enabled("C4"):
                 lifted = self._lift_ifexp(st)
